@@ -121,6 +121,8 @@ static void ev_state(int h){
   ev_i("h",h);
   ev_i("rs",vf->ready_state); ev_i("sk",vf->seekable); ev_i("nl",vf->links); ev_i("cur",vf->current_link);
   ev_i("tell",vf->pcm_offset); ev_i("off",vf->offset);
+  /* the decoder's sample bookkeeping, for the model of the decode path (meaningful while a decoder exists) */
+  if(vf->ready_state==4){ ev_i("dr",vf->vd.pcm_returned); ev_i("dc",vf->vd.pcm_current); ev_i("dw",vf->vd.centerW); ev_i("dg",vf->vd.granulepos>2000000000LL?2000000000LL:vf->vd.granulepos); }
   ev_i("tella", vf->seekable? (long long)vf->pcm_offset : x->delivered);
   ev_i("hs", (vf->vi && vf->vi->codec_setup)? vorbis_synthesis_halfrate_p(vf->vi) : -1);
   ev_i("cl",x->src.closes); ev_b("z",is_zero(vf,sizeof *vf));
